@@ -7,6 +7,7 @@ RUNS = {"quick": 700, "thorough": 30000}
 SHRINK_LISTS = ("faults", "env", "members", "logs", "appends")
 SHRINK_MIN = {"members": 1}
 RUN_TIMEOUT = 300
+BUDGET = {"quick": 120.0, "thorough": 900.0}  # (the run cap ends a quick check earlier on an idle machine)
 
 
 def gen_plan(seed, index, tier="quick"):
